@@ -92,6 +92,13 @@ func (c *c09) Cases(tier string, seed int64) []core.Case {
 	// concurrent: many goroutines inside the kernels at once, each on its own buffers
 	for _, p := range c09Paths {
 		cs = append(cs, core.MkCase(fmt.Sprintf("concurrent-%s", p), c09Params{Mode: "concurrent", Path: p, Lens: []int{2, 30, 34, 62, 66, 100, 318, 2000}, Seed: r.Int63()}))
+		if p == "exported-ssse3-on" || p == "exported-ssse3-off" || p == "platformLE-cast" {
+			// the same under the race detector (Go-level shared state of the
+			// dispatchers and casts; -race also enables checkptr)
+			rc := core.MkCase(fmt.Sprintf("race-concurrent-%s", p), c09Params{Mode: "concurrent", Path: p, Lens: []int{2, 30, 34, 62, 66, 100, 318}, Seed: r.Int63()})
+			rc.Race = true
+			cs = append(cs, rc)
+		}
 	}
 	// align
 	for _, p := range c09Paths {
